@@ -290,6 +290,49 @@ def peer_lengths_run(role, total, obs):
     return problems
 
 
+def pop_file_fails_run(role, obs):
+    ''' recv_bundle_pop_file() to a path that cannot be written answers with an error: nothing was handed out, so the transfer is
+    still listed and its data can still be popped (once). '''
+    import os
+    import tempfile
+    from vf.props import c17
+    from vf.oracles import tcpcl_wire as tw
+    peer = c17.Peer(role, 'idle')
+    problems = []
+    data = b'kept-until-really-popped'
+    peer.write(tw.encode(dict(type='XFER_SEGMENT', flags=tw.FLAG_START | tw.FLAG_END, transfer_id=77, ext=[tw.transfer_length_ext(len(data))], data=data)))
+    peer.settle()
+    obs['runs'] += 1
+    if peer.closed() or '77' not in [str(x) for x in peer.end.call('recv_bundle_get_queue')]:
+        return None
+    scratch = tempfile.mkdtemp(prefix='vf-pop-')
+    try:
+        failed = False
+        try:
+            peer.end.call('recv_bundle_pop_file', '77', os.path.join(scratch, 'no-such-dir', 'out.bin'))
+        except Exception:  # pylint: disable=broad-except
+            failed = True
+        if not failed:
+            return None
+        obs['pops_checked'] += 1
+        queue = [str(x) for x in peer.end.call('recv_bundle_get_queue')]
+        if queue != ['77']:
+            problems.append(('pop', 'recv_bundle_pop_file() failed (unwritable path) and handed nothing out, but the receive queue now lists %s '
+                             'instead of the announced transfer 77' % queue))
+        else:
+            good = os.path.join(scratch, 'out.bin')
+            peer.end.call('recv_bundle_pop_file', '77', good)
+            import gc
+            gc.collect()
+            if open(good, 'rb').read() != data:
+                problems.append(('pop', 'after a failed and then a successful recv_bundle_pop_file() the file holds %d octets, the transfer had %d' % (
+                    os.path.getsize(good), len(data))))
+    finally:
+        import shutil
+        shutil.rmtree(scratch, ignore_errors=True)
+    return problems
+
+
 def peer_reuse_run(role, pop_between, obs):
     ''' The peer uses a transfer id twice (a peer bug or a restart): whatever the endpoint makes of the second transfer, its own
     announcements and its receive queue stay consistent: ids announced and not yet popped == ids listed, each pop returns what was
@@ -569,6 +612,8 @@ def cases(tier, seed):
         for total in (None, 0, 6, 2 ** 31 - 1, 2 ** 31, 2 ** 32 + 5, 2 ** 63, 2 ** 64 - 1):
             out.append(dict(id='peerlen-%s-%s' % (role, total), kind='peerlen', role=role, total=total))
     for role in ('passive', 'active'):
+        out.append(dict(id='pop-file-%s' % role, kind='pop-file', role=role))
+    for role in ('passive', 'active'):
         for pop_between in (False, True):
             out.append(dict(id='peer-reuse-%s-%s' % (role, pop_between), kind='peer-reuse', role=role, pop_between=pop_between))
     idx = 0
@@ -672,6 +717,8 @@ def run_case(case):
     elif case['kind'] == 'refuse':
         note(refusal_run(case['role'], case['variant'], obs), 'refuse', dict(role=case['role'], variant=case['variant']),
              'refuse|%s|%s' % (case['role'], case['variant']))
+    elif case['kind'] == 'pop-file':
+        note(pop_file_fails_run(case['role'], obs), 'pop-file', dict(role=case['role']), 'pop-file|%s' % case['role'])
     elif case['kind'] == 'peer-reuse':
         note(peer_reuse_run(case['role'], case['pop_between'], obs), 'peer-reuse', dict(role=case['role'], pop_between=case['pop_between']),
              'peer-reuse|%s|%s' % (case['role'], case['pop_between']))
